@@ -77,7 +77,7 @@ def _observe(lang, tag, units, engines):
         f.write(program_text(units))
     out = {}
     if "vm" in engines:
-        r = lang.vm(p, timeout=25)
+        r = lang.vm(p, timeout=10)
         d = _split_markers(r["out"].decode(errors="replace"))
         ok = r["rc"] == 0 and "end" in d
         out["vm"] = ("ok" if ok else "fail", d, "rc=%s %s" % (r["rc"], (r["err"][-800:] + r["out"][-300:]).decode(errors="replace")))
@@ -97,7 +97,7 @@ def _observe(lang, tag, units, engines):
             d = {}
             ok = False
             if rc == 0 and os.path.exists(exe):
-                rc2, o2, e2 = common.run([exe], timeout=25, cwd=lang.work, tmp=lang.tmp)
+                rc2, o2, e2 = common.run([exe], timeout=10, cwd=lang.work, tmp=lang.tmp)
                 d = _split_markers(o2.decode(errors="replace"))
                 ok = rc2 == 0 and "end" in d
                 diag2 = "run rc=%s %s" % (rc2, (e2[-600:] + o2[-200:]).decode(errors="replace"))
